@@ -9,15 +9,15 @@ TECH = 'SMT-decided bounded symbolic execution of the real go/ssa code (gosym: p
 TRUST = 'trusted: go/ssa and go/types, the gosym encoder (summaries validated on concrete vectors; every counterexample replayed natively before it is reported), the solvers, the reference transcribed from the documentation, the stubs listed in the evidence file'
 
 CHECKS = {
-    'C04': ('model_checking', 'symbolic execution of the real ACTION/GOTO and Parse driver: the tables are compared entry by entry (every integer state, every terminal/non-terminal and non-symbols, no bound) with the LALR(1) table the library builds; every token sequence up to a length bound is compared with a reference parser written from the documentation (acceptance, reduction order, error token); regeneration byte-compare is auxiliary', '§7 C04'),
-    'C05': ('model_checking', 'symbolic execution of the real scanner: one inductive bisimulation step compares advanceDFA/evalDFA with the documented automaton for every state and every int32 rune (no length bound); the real NextToken loop over the real reader is compared with the reference token stream for every text up to a length bound; the lexeme rule for every STRING/REGEX text up to a length bound', '§7 C05'),
-    'C13': ('model_checking', 'symbolic execution of lexer.New + NextToken + the two-buffer reader with the symbolic text placed behind concrete paddings that sweep the buffer alignments and followed by concrete tails (with and without final newline); the stream must equal the reference stream, which is a function of the text alone', '§7 C13'),
+    'C04': ('model_checking', 'symbolic execution of the real ACTION/GOTO and Parse driver: the tables are compared entry by entry (every integer state, every terminal/non-terminal and non-symbols, no bound) with the LALR(1) table the library builds; every token sequence up to a length bound, and long sentences of nine shapes (40-120 repetitions, one token kind symbolic), are compared with a reference parser written from the documentation (acceptance, reduction order, error token); regeneration byte-compare is auxiliary', '§7 C04'),
+    'C05': ('model_checking', 'symbolic execution of the real scanner: one inductive bisimulation step compares advanceDFA/evalDFA with the documented automaton for every state and every int32 rune (no length bound); the real NextToken loop over the real reader is compared with the reference token stream for every text up to a length bound and for a shortest text into each state of the documented automaton followed by symbolic bytes; the lexeme rule for every STRING/REGEX text up to a length bound', '§7 C05'),
+    'C13': ('model_checking', 'symbolic execution of lexer.New + NextToken + the two-buffer reader with the symbolic text placed behind concrete paddings that sweep the buffer alignments or one giant skipped element (spaces, tabs, blank lines, comments of 4096+ bytes), and followed by concrete tails (with and without final newline); the stream must equal the reference stream, which is a function of the text alone', '§7 C13'),
 }
 
 CHECKS.update({
     'C11': ('model_checking', 'symbolic execution of ParseAndBuildAST and of ast.Parse with its real semantic actions over every token sequence up to a length bound (kinds symbolic): the generic tree must be the reference derivation tree over the input tokens, the typed tree must equal an independently built one; the round-trip and derived-grammar clauses are not decided', '§7 C11'),
-    'C18': ('model_checking', 'symbolic execution of Parse and ParseAndEvaluate with monitoring callbacks over every token sequence up to a length bound: callback order = reverse rightmost derivation of the reference tree, body values and positions, and a symbolic failure step for callbacks and lexer', '§7 C18'),
-    'C20': ('model_checking', 'symbolic execution: every rejected token sequence up to a length bound must blame the first token the reference parser cannot continue with (position, lexeme, nothing later read); every text up to a length bound with a stray or unterminated element must name its first character', '§7 C20'),
+    'C18': ('model_checking', 'symbolic execution of Parse and ParseAndEvaluate with monitoring callbacks over every token sequence up to a length bound and long sentences (40-120 repetitions): callback order = reverse rightmost derivation of the reference tree, body values and positions, and a symbolic failure step for callbacks and lexer', '§7 C18'),
+    'C20': ('model_checking', 'symbolic execution: every rejected token sequence up to a length bound must blame the first token the reference parser cannot continue with (position, lexeme, nothing later read); every text up to a length bound with a stray or unterminated element, or followed by a byte that is not UTF-8, must name its first character', '§7 C20'),
 })
 
 TV_TECH = 'SMT-decided translation validation: the real pipeline of the current tree is run on each member of an enumerated corpus of programs (dump driver), and z3 decides the universally quantified dimension (all words / all sentences up to a bound, or all symbols with no length bound by an inductive bisimulation step) against a denotational reference; witnesses are replayed against the real code'
@@ -32,17 +32,17 @@ TV = {
 
 CHECKS.update({
     'C08': ('model_checking', 'per specification of an emission corpus the real generator is run, the emitted package must build with the standard library only (auxiliary), and its go/ssa is executed symbolically: emitted advanceDFA (summarised) and evalDFA are compared with the token automaton of the same tree for every integer state and every int32 rune (no bound in that domain)', '§7 C08'),
-    'C19': ('model_checking', 'symbolic execution of the emitted package itself (New, NextToken, evalDFA, the emitted two-buffer reader and stack): concrete paddings sweeping the buffer alignments + arbitrary ASCII bytes + concrete tails with multi-byte characters, compared call by call with the reference token stream of the token automaton and the documented skip/discard rules', '§7 C19'),
+    'C19': ('model_checking', 'symbolic execution of the emitted package itself (New, NextToken, evalDFA, the emitted two-buffer reader and stack): concrete paddings sweeping the buffer alignments + arbitrary ASCII bytes + concrete tails with multi-byte characters (and a shortest text into each automaton state as head), compared call by call with the reference token stream of the token automaton and the documented skip/discard rules', '§7 C19'),
 })
 
 CHECKS.update({
-    'C09': ('model_checking', 'symbolic execution of nfa.Parse with the real combinator parser and mappers over every printable-ASCII text up to a length bound: acceptance implies that the whole text is a sentence of the documented grammar (a character-level recogniser written as Boolean terms); descending ranges and inverted repetition bounds are rejected with an error naming the problem', '§7 C09'),
-    'C14': ('model_checking', 'symbolic execution of every entry point on arbitrary inputs up to a bound (scanner+reader on arbitrary bytes, ast.Parse and the whole spec.Parse on every token sequence, the pattern compiler on arbitrary strings, main/Run/Generate against an arbitrary environment): every reachable panic, failed assertion, index error, nil dereference, success with a nil result or exhausted step budget is a finding with a model', '§7 C14'),
-    'C16': ('model_checking', 'PARTIAL (operating system modelled): symbolic execution of main.main, Command.Run and Generate/prepare/renderTemplate with the OS, the flag parser, Parse, Generate, isIDValid and template execution as contract-constrained nondeterministic stubs: status 0 and the success message iff every step succeeded and all six files were opened exclusively under <out>/<name>; flags honoured; invalid name rejected before anything is created; no call that could touch pre-existing state', '§7 C16'),
+    'C09': ('model_checking', 'symbolic execution of nfa.Parse with the real combinator parser and mappers over every printable-ASCII text up to a length bound: acceptance implies that the whole text is a sentence of the documented grammar (a character-level recogniser written as Boolean terms), also inside fixed frames of the longer constructs (category and class names, bounds, hexadecimal escapes); descending ranges and inverted repetition bounds are rejected with an error naming the problem', '§7 C09'),
+    'C14': ('model_checking', 'symbolic execution of every entry point on arbitrary inputs up to a bound (scanner+reader on arbitrary bytes, ast.Parse and the whole spec.Parse on every token sequence, the pattern compiler on arbitrary strings, main/Run/Generate against an arbitrary environment): every reachable panic, failed assertion, index error, nil dereference, success with a nil result or exhausted step budget is a finding with a model; auxiliary: boundary patterns (extreme hexadecimal escapes, large counts) compiled natively under a time and memory limit', '§7 C14'),
+    'C16': ('model_checking', 'PARTIAL (operating system modelled): symbolic execution of main.main, Command.Run and Generate/prepare/renderTemplate with the OS, the flag parser, Parse, Generate, isIDValid and template execution as contract-constrained nondeterministic stubs: status 0 and the success message iff every step succeeded and all six files were opened exclusively under <out>/<name>; flags honoured; invalid name rejected before anything is created (isIDValid decided on all keywords and predeclared identifiers of Go); no call that could touch pre-existing state', '§7 C16'),
 })
 
 CHECKS.update({
-    'C17': ('model_checking', 'PARTIAL: two-thread mode of the symbolic executor - two harness bodies (hashStrings; spec.Parse of two specifications) run as coroutines, every call/load/store/map access inside the watched functions is a preemption point and the schedule (bounded number of context switches) is a path decision, so all such schedules are explored; each result must equal the isolated result and must not depend on what was processed before; a counterexample is confirmed natively with the race detector', '§7 C17'),
+    'C17': ('model_checking', 'PARTIAL: two-thread mode of the symbolic executor - two harness bodies (hashStrings; spec.Parse of two specifications) run as coroutines, every call/load/store/map access inside the watched functions is a preemption point and the schedule (bounded number of context switches) is a path decision, so all such schedules are explored; each result must equal the isolated result and must not depend on what was processed before (histories over accepted and rejected specifications and over well-formed and defective patterns); a counterexample is confirmed natively, schedule-dependent ones with the race detector', '§7 C17'),
 })
 
 CHECKS.update({
